@@ -94,6 +94,12 @@ def items(tier: str) -> List[Any]:
             if s not in seen:
                 seen.add(s)
                 progs.append(s)
+    # a call as the very last instruction whose callee returns (5-line layouts; all of them are in the thorough G1 space)
+    if tier == "quick":
+        for s in raw.programs(5, 2, raw.PLAIN_SMALL):
+            if s.rstrip().split("\n")[-1].startswith("callsub") and "retsub" in s and s not in seen:
+                seen.add(s)
+                progs.append(s)
     structural = c02.structural("quick")
     if tier == "quick":
         structural = structural[::2]  # every second skeleton rendering (all of them in thorough)
